@@ -81,6 +81,10 @@ type c16Step struct {
 	Trl    string     `json:"trl,omitempty"`
 	Closed []string   `json:"closed,omitempty"`
 	Pooled []string   `json:"pooled,omitempty"`
+	Unav   string     `json:"unav,omitempty"`   // "yes": the backend is down; "may": it is up again but may not be reconnected yet
+	N      int        `json:"n,omitempty"`      // burst: overlapping calls
+	Served int        `json:"served,omitempty"` // burst: calls that must be served
+	Open   int        `json:"open,omitempty"`   // burst: connections open at the backend once it is over
 }
 
 type c16Behaviour struct {
@@ -89,15 +93,18 @@ type c16Behaviour struct {
 	Drive    string    `json:"drive,omitempty"`    // "lock" | "free" (replay of a recorded failure)
 	Selftest bool      `json:"selftest,omitempty"` // corrupted on purpose: the harness must reject it
 	Idx      int       `json:"idx,omitempty"`
+	Repeat   int       `json:"repeat,omitempty"` // play the behaviour this often (races do not happen every time)
 }
 
 const (
 	c16Stall     = 20 * time.Second
 	c16TickWait  = 5*time.Second + 12*time.Second // the proxy's clean-up period + closing grace + slack
+	c16Recover   = 20 * time.Second               // a recovered backend must be reachable again (gRPC backs off ~1-3 s)
+	c16Quiesce   = 5 * time.Second                // connections that lost the race to the pool must be gone
 	c16GrpcGrace = 300 * time.Millisecond
 )
 
-var c16Stalls int64
+var c16Stalls, c16BurstLeaks, c16BurstFails int64
 
 // ---------------------------------------------------------------- concretisation of tokens
 
@@ -247,6 +254,28 @@ type c16Backend struct {
 	invoked int64
 }
 
+// down stops the backend: the listener is closed and every connection to it dies.
+func (b *c16Backend) down() { b.srv.Stop() }
+
+// upAgain lets the backend listen on the same address again.
+func (b *c16Backend) upAgain() error {
+	var ln net.Listener
+	var err error
+	for i := 0; i < 300; i++ {
+		if ln, err = net.Listen("tcp", b.addr); err == nil {
+			break
+		}
+		time.Sleep(10 * time.Millisecond) // the port is ours; the kernel may need a moment to release it
+	}
+	if err != nil {
+		return err
+	}
+	b.srv = grpc.NewServer()
+	tpb.RegisterTestServiceServer(b.srv, b)
+	go b.srv.Serve(&c16Listener{Listener: ln, be: b})
+	return nil
+}
+
 type c16Listener struct {
 	net.Listener
 	be *c16Backend
@@ -304,6 +333,33 @@ type c16Run struct {
 	mu      sync.Mutex
 	seen    *c16Seen
 	nseen   int
+	barrier *c16Barrier // burst: the backend holds the call until all calls of the burst are in flight
+}
+
+type c16Barrier struct {
+	n, arrived int32
+	all        chan struct{}
+	patience   time.Duration
+}
+
+func c16NewBarrier(n int) *c16Barrier {
+	b := &c16Barrier{n: int32(n), all: make(chan struct{}), patience: 2 * time.Second}
+	if atomic.LoadInt64(&c16BurstFails) > 3 {
+		b.patience = 100 * time.Millisecond // calls are being lost: reported already, do not wait as long again
+	}
+	return b
+}
+func (b *c16Barrier) arrive() {
+	if atomic.AddInt32(&b.arrived, 1) == b.n {
+		close(b.all)
+	}
+}
+func (b *c16Barrier) wait(gone <-chan struct{}) {
+	select {
+	case <-b.all:
+	case <-gone:
+	case <-time.After(b.patience): // a call that never arrives must not hold the others for ever
+	}
 }
 
 func (r *c16Run) snapshot() (c16Seen, int) {
@@ -435,6 +491,10 @@ func (b *c16Backend) serve(kind string, ops *c16BOps) error {
 
 	// free: the backend follows its script on its own
 	close(run.entered)
+	if run.barrier != nil {
+		run.barrier.arrive()
+		run.barrier.wait(ops.ctx.Done())
+	}
 	reads := len(c.Reqs)
 	if c.Early {
 		reads = 0
@@ -615,6 +675,24 @@ func (e *c16Env) close() {
 	}
 }
 
+// watch observes for d that no backend (except those in skip) has more than max open connections;
+// it returns the first offender.  Waiting longer can only find more, never less: the bound is a
+// safety property.
+func (e *c16Env) watch(d time.Duration, skip map[string]bool, max int64) (string, int64) {
+	deadline := time.Now().Add(d)
+	for {
+		for n, be := range e.backends {
+			if o := atomic.LoadInt64(&be.open); !skip[n] && o > max {
+				return n, o
+			}
+		}
+		if time.Now().After(deadline) {
+			return "", 0
+		}
+		time.Sleep(20 * time.Millisecond)
+	}
+}
+
 func (e *c16Env) setTable(rs []c16Route) error {
 	var b bytes.Buffer
 	for _, r := range rs {
@@ -790,12 +868,16 @@ func c16Within(what string, fn func()) error {
 }
 
 // runCall performs one call through the proxy and returns what the caller and the backend saw.
-func (e *c16Env) runCall(st *c16Step, id, drive string) (obs c16Obs, seen c16Seen, nseen int, stall error) {
+func (e *c16Env) runCall(st *c16Step, id, drive string) (c16Obs, c16Seen, int, error) {
+	return e.runCallB(st, id, drive, nil)
+}
+
+func (e *c16Env) runCallB(st *c16Step, id, drive string, barrier *c16Barrier) (obs c16Obs, seen c16Seen, nseen int, stall error) {
 	c := st.Call
 	if st.Be == "" {
 		drive = "free" // nothing to step through: the proxy answers by itself
 	}
-	run := &c16Run{id: id, call: c, drive: drive, entered: make(chan struct{}), cmd: make(chan string), res: make(chan c16Res, 1), done: make(chan struct{})}
+	run := &c16Run{id: id, call: c, drive: drive, entered: make(chan struct{}), cmd: make(chan string), res: make(chan c16Res, 1), done: make(chan struct{}), barrier: barrier}
 	e.mu.Lock()
 	e.runs[id] = run
 	e.mu.Unlock()
@@ -994,6 +1076,9 @@ func (e *c16Env) checkCall(st *c16Step, id string, obs c16Obs, seen c16Seen, nse
 	}
 	want := c16MD(c.Md)
 	want.Set("x-c16-id", id)
+	if c.Host != "" {
+		want.Set("dsthost", c.Host) // the routing hint is the caller's metadata like any other
+	}
 	if d := c16DiffMD(seen.MD, want); d != "" {
 		add("metadata", "custom metadata at the backend: %s", d)
 	}
@@ -1047,7 +1132,7 @@ func c16Features(st *c16Step, clause, drive, mode string) map[string]any {
 // ---------------------------------------------------------------- replay of one behaviour on a fresh proxy
 
 type c16Stats struct {
-	calls, ticks, msgs int64
+	calls, ticks, msgs, bursts, outages int64
 }
 
 func c16Backends(b *c16Behaviour) []string {
@@ -1079,8 +1164,19 @@ func c16ReplaySeq(b *c16Behaviour, seed int64, drive string, stats *c16Stats) (f
 	// backends that were missing from a table after they had been called: the proxy's own timer
 	// may have dropped their connection at any moment since, so their counts are not exact
 	leftOnce := map[string]bool{}
+	shaky := map[string]bool{} // backends that had an outage
+	raced := map[string]bool{} // backends whose connection was made by a burst
+	settle := 2500 * time.Millisecond
+	if verifx.Thorough() {
+		settle = 4 * time.Second
+	}
 	for i := range b.Steps {
 		st := &b.Steps[i]
+		if os.Getenv("C16_DEBUG") != "" && i > 0 {
+			for n, be := range env.backends {
+				verifx.Emit(map[string]any{"kind": "debug", "before_step": i, "op": st.Op, "backend": n, "open": atomic.LoadInt64(&be.open), "accepted": atomic.LoadInt64(&be.accepts)})
+			}
+		}
 		switch st.Op {
 		case "set":
 			if err := env.setTable(st.Table); err != nil {
@@ -1095,6 +1191,75 @@ func c16ReplaySeq(b *c16Behaviour, seed int64, drive string, stats *c16Stats) (f
 					leftOnce[n] = true
 				}
 			}
+		case "down":
+			env.backends[st.Be].down()
+			shaky[st.Be] = true
+			stats.outages++
+		case "up":
+			if err := env.backends[st.Be].upAgain(); err != nil {
+				return nil, nil, fmt.Errorf("backend %s cannot listen on its address again: %v", st.Be, err)
+			}
+		case "burst":
+			// n overlapping first calls for a backend the proxy has no connection to yet
+			atomic.AddInt64(&stats.bursts, 1)
+			bar := c16NewBarrier(st.N)
+			type result struct {
+				obs   c16Obs
+				seen  c16Seen
+				nseen int
+				stall error
+				id    string
+			}
+			results := make([]result, st.N)
+			gate := make(chan struct{})
+			var wg sync.WaitGroup
+			cs := *st
+			cs.Op, cs.Bgot, cs.Cgot, cs.Code, cs.Msg, cs.Trl = "call", st.Call.Reqs, st.Call.Resps, st.Call.Code, st.Call.Msg, st.Call.Trl
+			cs.Hdr = st.Call.Hdr
+			if len(st.Call.Resps) == 0 {
+				cs.Hdr = "any"
+			}
+			cs.Beof = st.Call.Kind == "bidi" || st.Call.Kind == "cstream"
+			for k := 0; k < st.N; k++ {
+				wg.Add(1)
+				go func(k int) {
+					defer wg.Done()
+					r := &results[k]
+					r.id = fmt.Sprintf("u%d-%d-%d-%d", b.Idx, i, k, seed)
+					<-gate
+					r.obs, r.seen, r.nseen, r.stall = env.runCallB(&cs, r.id, "free", bar)
+				}(k)
+			}
+			close(gate)
+			wg.Wait()
+			atomic.AddInt64(&stats.calls, int64(st.N))
+			for k := range results {
+				r := &results[k]
+				if r.stall != nil {
+					fail(st, "stall", "step %d, call %d of the burst: %v", i, k+1, r.stall)
+					continue
+				}
+				for _, d := range env.checkCall(&cs, r.id, r.obs, r.seen, r.nseen) {
+					atomic.AddInt64(&c16BurstFails, 1)
+					fail(st, "burst-"+d.clause, "step %d, call %d of %d overlapping first calls to %s: %s", i, k+1, st.N, st.Be, d.msg)
+				}
+			}
+			// quiescence: connections that lost the race to the pool must be gone, one stays
+			quiesce := c16Quiesce
+			if atomic.LoadInt64(&c16BurstLeaks) > 0 {
+				quiesce = 300 * time.Millisecond // already reported once: no need to wait as long again
+			}
+			deadline := time.Now().Add(quiesce)
+			be := env.backends[st.Be]
+			for atomic.LoadInt64(&be.open) != 1 && time.Now().Before(deadline) {
+				time.Sleep(10 * time.Millisecond)
+			}
+			if o := atomic.LoadInt64(&be.open); o != 1 {
+				atomic.AddInt64(&c16BurstLeaks, 1)
+				fail(st, "burst-conn-count", "step %d: %v after %d overlapping first calls backend %s has %d open connections (%d accepted), want 1",
+					i, quiesce, st.N, st.Be, o, atomic.LoadInt64(&be.accepts))
+			}
+			raced[st.Be] = true
 		case "call":
 			acc0 := map[string]int64{}
 			inv0 := map[string]int64{}
@@ -1103,19 +1268,65 @@ func c16ReplaySeq(b *c16Behaviour, seed int64, drive string, stats *c16Stats) (f
 				inv0[n] = atomic.LoadInt64(&be.invoked)
 			}
 			id := fmt.Sprintf("s%d-%d-%d", b.Idx, i, seed)
-			obs, seen, nseen, stall := env.runCall(st, id, drive)
+			var obs c16Obs
+			var seen c16Seen
+			var nseen int
+			var stall error
+			switch {
+			case st.Unav != "":
+				// The backend is down (or may still be unreachable): the statement does not say how such a
+				// call ends.  It must not reach anybody else.
+				obs, seen, nseen, stall = env.runCall(st, id, "free")
+				if stall == nil && nseen > 0 && seen.Be != st.Be {
+					fail(st, "route", "step %d: call for the unreachable backend %s was served by %s", i, st.Be, seen.Be)
+				}
+			case st.Conn == "reconnect":
+				// the backend listens again: gRPC re-establishes the pooled connection after its back-off
+				deadline := time.Now().Add(c16Recover)
+				for try := 0; ; try++ {
+					id = fmt.Sprintf("s%d-%d-%d-t%d", b.Idx, i, seed, try)
+					obs, seen, nseen, stall = env.runCall(st, id, "free") // the call may not get through yet: nothing to step
+					if stall != nil || nseen > 0 || status.Code(obs.Err) != codes.Unavailable || time.Now().After(deadline) {
+						break
+					}
+					atomic.AddInt64(&stats.calls, 1)
+					time.Sleep(100 * time.Millisecond)
+				}
+				if stall == nil && nseen == 0 {
+					fail(st, "recovery", "step %d: backend %s has been listening again for %v and is in the table, calls still fail: %v", i, st.Be, c16Recover, obs.Err)
+					return
+				}
+			default:
+				obs, seen, nseen, stall = env.runCall(st, id, drive)
+			}
 			atomic.AddInt64(&stats.calls, 1)
 			atomic.AddInt64(&stats.msgs, int64(len(seen.Reqs)+len(obs.Resps)))
 			if stall != nil {
 				fail(st, "stall", "step %d: %v", i, stall)
 				return
 			}
-			for _, d := range env.checkCall(st, id, obs, seen, nseen) {
-				fail(st, d.clause, "step %d: %s", i, d.msg)
+			if st.Unav == "" {
+				for _, d := range env.checkCall(st, id, obs, seen, nseen) {
+					fail(st, d.clause, "step %d: %s", i, d.msg)
+				}
 			}
 			for n, be := range env.backends {
 				d := atomic.LoadInt64(&be.accepts) - acc0[n]
 				inv := atomic.LoadInt64(&be.invoked) - inv0[n]
+				o := atomic.LoadInt64(&be.open)
+				if shaky[n] || raced[n] {
+					// after an outage gRPC reconnects on a timer of its own: connections are counted, not dials
+					if n != st.Be && inv != 0 {
+						fail(st, "conn-other", "step %d: call for %s, yet backend %s saw %d call(s)", i, st.Be, n, inv)
+					}
+					if !leftOnce[n] && o > 1 {
+						fail(st, "conn-count", "step %d: backend %s in the table has %d open connections, want at most 1", i, n, o)
+					}
+					if n == st.Be && st.Unav == "" && !leftOnce[n] && o != 1 {
+						fail(st, "conn-count", "step %d: backend %s in the table has %d open connections after a call, want 1", i, n, o)
+					}
+					continue
+				}
 				switch {
 				case st.Be == "":
 					if d != 0 || inv != 0 {
@@ -1132,8 +1343,14 @@ func c16ReplaySeq(b *c16Behaviour, seed int64, drive string, stats *c16Stats) (f
 				case st.Conn == "may" && (d < 0 || d > 1):
 					fail(st, "conn-reuse", "step %d: backend %s: %d new connections, want 0 or 1", i, n, d)
 				}
-				if o := atomic.LoadInt64(&be.open); n == st.Be && !leftOnce[n] && o != 1 {
+				if n == st.Be && !leftOnce[n] && o != 1 {
 					fail(st, "conn-count", "step %d: backend %s in the table has %d open connections after a call, want 1", i, n, o)
+				}
+			}
+			if st.Conn == "reconnect" {
+				// connection objects that were orphaned during the outage come back on their own now
+				if n, o := env.watch(settle, leftOnce, 1); n != "" {
+					fail(st, "conn-count", "step %d: within %v after the recovery of %s backend %s in the table has %d open connections, want at most 1", i, settle, st.Be, n, o)
 				}
 			}
 		case "tick":
@@ -1154,6 +1371,19 @@ func c16ReplaySeq(b *c16Behaviour, seed int64, drive string, stats *c16Stats) (f
 			for _, n := range st.Pooled {
 				if o := atomic.LoadInt64(&env.backends[n].open); !leftOnce[n] && o != 1 {
 					fail(st, "cleanup-keep", "step %d: backend %s is in the table and was called: %d open connections after the clean-up, want 1", i, n, o)
+				}
+			}
+			if len(shaky)+len(raced) > 0 && len(fails) == 0 {
+				// nothing may come back: every connection object of the backends that left is closed
+				gone := map[string]bool{}
+				for n := range env.backends {
+					gone[n] = true
+				}
+				for _, n := range st.Closed {
+					delete(gone, n)
+				}
+				if n, o := env.watch(settle, gone, 0); n != "" {
+					fail(st, "cleanup-close", "step %d: backend %s left the table and the clean-up ran, yet within %v it has %d open connection(s) again", i, n, settle, o)
 				}
 			}
 		}
@@ -1185,6 +1415,11 @@ func TestVerifC16(t *testing.T) {
 		if b.Idx == 0 {
 			b.Idx = n
 		}
+		for i := range b.Steps {
+			if b.Steps[i].Unav == "no" {
+				b.Steps[i].Unav = ""
+			}
+		}
 		if b.Mode == "shared" && !b.Selftest {
 			shared = append(shared, &b)
 		} else {
@@ -1205,7 +1440,7 @@ func TestVerifC16(t *testing.T) {
 			return
 		}
 		for _, s := range b.Steps {
-			if s.Op == "call" && s.Be != "" && len(s.Bgot)+len(s.Cgot) >= 2 {
+			if (s.Op == "call" && s.Be != "" && len(s.Bgot)+len(s.Cgot) >= 2) || s.Op == "burst" {
 				atomic.AddInt64(&nontrivial, 1)
 				return
 			}
@@ -1352,7 +1587,11 @@ func TestVerifC16(t *testing.T) {
 			}
 		}
 		rejected := false
-		for _, drive := range drives(b) {
+		ds := drives(b)
+		for r := 1; r < b.Repeat; r++ {
+			ds = append(ds, ds[0])
+		}
+		for _, drive := range ds {
 			fails, steps, err := c16ReplaySeq(b, seed, drive, &stats)
 			if err != nil {
 				t.Fatalf("behaviour %d: %v", b.Idx, err)
@@ -1374,7 +1613,7 @@ func TestVerifC16(t *testing.T) {
 			}
 		}
 	}
-	verifx.Summary(map[string]any{"behaviours": n - int(selfTotal), "calls": stats.calls, "ticks": stats.ticks, "messages": stats.msgs,
+	verifx.Summary(map[string]any{"behaviours": n - int(selfTotal), "calls": stats.calls, "ticks": stats.ticks, "messages": stats.msgs, "bursts": stats.bursts, "outages": stats.outages,
 		"distinct_nontrivial": nontrivial, "selftests": selfTotal, "selftests_rejected": selfRejected,
 		"aborted": aborted, "samples": samples, "pid": os.Getpid()})
 }
